@@ -29,6 +29,9 @@ fn run_uninterrupted(vm: &mut Vm, text: &str) -> (String, u64) {
     (render(&r), n)
 }
 
+/// sliced stream: force a full collection at every slice boundary (placement of collections is free)
+static FORCE_GC_AT_SLICE: std::sync::atomic::AtomicBool = std::sync::atomic::AtomicBool::new(false);
+
 /// run one form in slices; returns (rendered outcome, per-slice (kind, instructions))
 fn run_sliced(vm: &mut Vm, text: &str, budgets: &mut dyn FnMut() -> usize, max_slices: usize)
     -> (String, Vec<(char, u64)>) {
@@ -46,7 +49,12 @@ fn run_sliced(vm: &mut Vm, text: &str, budgets: &mut dyn FnMut() -> usize, max_s
         let r = vm.run_count(b);
         let n = vm.verif_state().instructions - before;
         match r {
-            Ok(None) => slices.push(('p', n)),
+            Ok(None) => {
+                slices.push(('p', n));
+                if FORCE_GC_AT_SLICE.load(std::sync::atomic::Ordering::Relaxed) {
+                    vm.verif_force_gc();
+                }
+            }
             Ok(Some(c)) => {
                 slices.push(('d', n));
                 return (format!("ok {:#}", c), slices);
@@ -357,6 +365,7 @@ fn main() {
                 let constant = if case % 3 != 2 { Some(1 + sched.below(64) as usize) } else { None };
                 let (mut va, la) = new_vm();
                 let (mut vb, lb) = new_vm();
+                FORCE_GC_AT_SLICE.store(case % 4 == 1, std::sync::atomic::Ordering::Relaxed);
                 let mut dead = false;
                 for text in &texts {
                     if std::env::var("VERIF_DEBUG_CASE").is_ok() {
@@ -506,6 +515,11 @@ fn main() {
                 prologue.push(a("(define kk0 #f)"));
                 prologue.push(a("(define (deepk n) (if (= n 0) (call/cc (lambda (k) (set! kk0 k) 1)) (+ 0 (deepk (- n 1)))))"));
                 prologue.push(a(&format!("(define r0 (deepk {}))", [5, 70, 140][case % 3])));
+                // a forward reference to a global that is defined only AFTER the failures (compiled code refers to
+                // the binding created at compile time), and a procedure whose name a `define-syntax` placed after
+                // the failure point of the failing form would take over if it took effect before being evaluated
+                prologue.push(a("(define (fwd n) (* n fwdvar))"));
+                prologue.push(a("(define (mm x) (+ x 1))"));
                 names.extend(defined_names(&prologue));
                 for f in &prologue {
                     let t = f.render();
@@ -535,9 +549,21 @@ fn main() {
                 let mut g3 = Gen::new(seed() ^ (case as u64) ^ 0x55);
                 let fb = ctx(int(0), &mut g3);
                 let eff = l(vec![a("set!"), a("eff"), l(vec![a("+"), a("eff"), int(1)])]);
-                let mut form_a = l(vec![a("begin"), eff.clone(), fa]).render();
+                let mut form_a = if case % 3 == 0 {
+                    // definitions the failing form never reaches
+                    l(vec![a("begin"), eff.clone(), fa,
+                           a("(define-syntax mm (syntax-rules () ((_ x) (- x 1))))"),
+                           a("(define-syntax mm2 (syntax-rules () ((_ x) (- x 2))))"),
+                           a("(define fwdvar 1000)")]).render()
+                } else {
+                    l(vec![a("begin"), eff.clone(), fa]).render()
+                };
                 let mut form_b = l(vec![a("begin"), eff, fb]).render();
                 let mut class = class;
+                if case % 3 == 0 {
+                    // marwood accepts define-syntax at top level only: the whole form is rejected by the compiler
+                    class = "syntax";
+                }
                 if class == "syntax" {
                     // compile-time failure: no instruction of the form runs, nothing is completed
                     form_b = "0".to_string();
@@ -582,6 +608,10 @@ fn main() {
                 // twin VM has seen no failure at all when it re-enters
                 probes.push("(begin (kk0 41) 'never)".into());
                 probes.push("r0".into());
+                probes.push("(mm 5)".into());
+                probes.push("(procedure? mm)".into());
+                probes.push("(define fwdvar 3)".into());
+                probes.push("(fwd 4)".into());
                 probes.push("(deep 3 (quote x))".into()); // a failing probe: compares stack traces
                 probes.push("(deep 5 7)".into());
                 let mut oa = vec![];
